@@ -44,8 +44,18 @@ type byteReader struct {
 
 func (r *byteReader) ReadByte() (byte, error) {
 	var buff = [1]byte{}
-	_, err := r.Read(buff[:])
-	return buff[0], err
+	for i := 0; i < 100; i++ {
+		n, err := r.Read(buff[:])
+		if 1 == n {
+			// a byte returned together with an error (io.EOF) is still part
+			// of the data; the reader reports the error again on the next call.
+			return buff[0], nil
+		}
+		if nil != err {
+			return 0, err
+		}
+	}
+	return 0, io.ErrNoProgress
 }
 
 // ToReader wrap message to io.Reader
